@@ -131,7 +131,18 @@ class FieldUse:
             for a in t['args'][:1]:
                 if a['k'] in ('copy', 'move') and not a['pl']['p'] and a['pl']['l'] in self.reftemps:
                     f = self.reftemps[a['pl']['l']]
-                    self.calls[f].append((bb, (t['func'].get('fn') or '').split('::')[-1], t))
+                    name = t['func'].get('fn') or ''
+                    if name in ('core::mem::replace', 'core::mem::take', 'core::mem::swap'):
+                        # `let old = mem::replace(&mut x.f, v)` is the assignment `x.f = v` that also hands back the old value
+                        if name == 'core::mem::replace' and len(t['args']) > 1:
+                            val = fn.expr_of_operand(t['args'][1])
+                        elif name == 'core::mem::take':
+                            val = ('call', 'core::default::Default::default', [], None)
+                        else:
+                            val = ('call', 'core::mem::swap', [fn.expr_of_operand(x) for x in t['args'][1:]], None)
+                        self.assigns[f].append((bb, len(fn.blocks[bb]['stmts']), val))
+                        continue
+                    self.calls[f].append((bb, name.split('::')[-1], t))
 
 
 def _before(fn, dom, a, b):
